@@ -375,6 +375,51 @@ func genRegex(r *rand.Rand) string {
 	return sb.String()
 }
 
+// regexSpecials: one byte / one rune of every class whose spelling by Go's %q (which the library uses to build the
+// source of a regex type: `"<example>" // {regex: "<pattern>"}`) differs from what a JSON string admits - control
+// characters (\x00, \a, \v, \x1f ...), DEL, bytes that are invalid UTF-8, non-printable runes above U+FFFF
+// (\U........) - or agrees with it (\n, \t, \b, \f, \u.... of non-printable runes up to U+FFFF, printable runes).
+var regexSpecials = []string{"\x00", "\x01", "\x07", "\x08", "\t", "\n", "\x0b", "\x0c", "\r", "\x1b", "\x1f", "\x7f",
+	"\x80", "\xa0", "\xc3", "\xff", "\u0085", "\u00a0", "\u00ad", "\u200b", "\u2028", "\ue000", "\ufeff", "\uffff", "\U0001f600", "\U000e0001", "\U0010ffff"}
+
+// addSpecialAtom puts ONE special atom into a regex text at an atom boundary that exists in every text (behind
+// the opening slash / in front of the closing one), under a quantifier that lets the generated example keep or
+// omit it: the pattern is legal for the regexp engine, the synthesised source may still not load.
+func addSpecialAtom(r *rand.Rand, text string) string {
+	x, _ := strconv.Unquote(`"` + regexSpecials[r.Intn(len(regexSpecials))] + `"`)
+	var slot string
+	switch r.Intn(10) {
+	case 0:
+		slot = x
+	case 1:
+		slot = x + "{0}"
+	case 2:
+		slot = x + "*"
+	case 3:
+		slot = x + "?"
+	case 4:
+		slot = x + "{0,1}"
+	case 5:
+		slot = "(" + x + ")?"
+	case 6:
+		slot = "(a|" + x + ")"
+	case 7:
+		slot = "[" + x + "]?"
+	case 8:
+		slot = x + "+"
+	default:
+		slot = "(b" + x + "){0}"
+	}
+	at := 0
+	if strings.HasPrefix(text, "/") {
+		at = 1
+	}
+	if k := strings.LastIndexByte(text, '/'); k > 0 && r.Intn(2) == 0 {
+		at = k
+	}
+	return text[:at] + slot + text[at:]
+}
+
 func genJSON(r *rand.Rand, depth int) string {
 	g := &gen{r: r}
 	if depth <= 0 || r.Intn(3) == 0 {
